@@ -98,6 +98,6 @@ def subs(tier: str):
         Sub("all-generators", check, "hypothesis", strategy=_strategy(hi), examples=400 if q else 4000),
         Sub("defaults-spanning-tree", check, "hypothesis",
             strategy=_strategy(hi if q else 20, defaults_only=True, names=["gen_dfs", "gen_wilson"]), examples=250 if q else 2000),
-        Sub("elongated-grids", check, "hypothesis", strategy=lambda: _elongated([64, 30, 100, 48] if q else [64, 30, 100, 48, 150, 200]), examples=6 if q else 60),
+        Sub("elongated-grids", check, "hypothesis", strategy=lambda: _elongated([64, 140, 30, 100, 131] if q else [64, 30, 100, 48, 131, 150, 200, 257]), examples=8 if q else 60),
         Sub("percolation-extremes", check, "hypothesis", strategy=lambda: _perc_extremes(hi), examples=60 if q else 600),
     ]
